@@ -145,13 +145,23 @@ Proof.
   now rewrite orb_false_r.
 Qed.
 
+(* the translated dtype/shape test of every concrete store compares both attributes and raises BadChunk *)
+Lemma decoded_check_all : forall s, decoded_check s = (true, true, K_BadChunk).
+Proof. intros []; reflexivity. Qed.
+Lemma check_decoded_spec : forall s so dk,
+  check_decoded s so dk = if negb so || negb dk then Some K_BadChunk else None.
+Proof. intros s so dk. unfold check_decoded. rewrite decoded_check_all. destruct so, dk; reflexivity. Qed.
+Lemma get_chunk_array : forall s so dk,
+  get_chunk s (LArray so dk) = if negb so || negb dk then Raise K_BadChunk else Ret Stored.
+Proof. intros s so dk. cbn [get_chunk]. rewrite check_decoded_spec. destruct (negb so || negb dk); reflexivity. Qed.
+
 Lemma get_chunk_cases : forall s lo,
   match lo with
   | LArray true true => get_chunk s lo = Ret Stored
   | LArray _ _ => get_chunk s lo = Raise K_BadChunk
   | LRaise e => get_chunk s lo = Raise (standard_errors (error_map s) e)
   end.
-Proof. intros s [[] []|e]; reflexivity. Qed.
+Proof. intros s [[] []|e]; rewrite ?get_chunk_array; reflexivity. Qed.
 
 (* the full absorb statement, for every store, every low-level result *)
 Lemma or_default_spec : forall s lo,
@@ -165,7 +175,7 @@ Lemma or_default_spec : forall s lo,
 Proof.
   intros s lo. unfold get_chunk_or_default, get_chunk_or_placeholder.
   destruct (get_chunk s lo) as [v|e] eqn:Hg.
-  - repeat split; auto. destruct lo as [[] []|e]; simpl in Hg; try discriminate; now inversion Hg.
+  - repeat split; auto. destruct lo as [[] []|e]; rewrite ?get_chunk_array in Hg; simpl in Hg; try discriminate; now inversion Hg.
   - destruct (caught_notfound e) as [-> ->]. destruct (isinst e K_ChunkNotFound); auto.
 Qed.
 
@@ -178,7 +188,7 @@ Proof.
   destruct (get_chunk s lo) as [w|e] eqn:Hg.
   - destruct S as [S1 [S2 S3]]. left. subst w.
     assert (v = Stored) by (destruct H as [H|H]; congruence). split; auto.
-    destruct lo as [[] []|e]; simpl in Hg; try discriminate; auto.
+    destruct lo as [[] []|e]; rewrite ?get_chunk_array in Hg; simpl in Hg; try discriminate; auto.
   - destruct (isinst e K_ChunkNotFound) eqn:Hi.
     + destruct S as [S1 S2]. right. split.
       * destruct H as [H|H]; [rewrite S1 in H|rewrite S2 in H]; inversion H; discriminate.
@@ -272,6 +282,21 @@ End ReadPaths.
 (* loading through ChunkStoreVisFlagsWeights                                              *)
 Lemma vfw_getters : vfw_getter AFlags = get_chunk_or_default /\ vfw_getter AOther = get_chunk_or_placeholder.
 Proof. split; reflexivity. Qed.
+
+(* ChunkStore.get_dask_array's choice of getter, for EVERY value of `errors` (translated if/elif chain + kwargs) *)
+Lemma getter_selection_total :
+  get_dask_array_getter ErrNum = GDefault /\
+  get_dask_array_getter (ErrStr "placeholder") = GPlaceholder false /\
+  get_dask_array_getter (ErrStr "dryrun") = GPlaceholder true /\
+  get_dask_array_getter (ErrStr "raise") = GGet /\
+  (forall s, String.eqb s "placeholder" = false -> String.eqb s "dryrun" = false -> String.eqb s "raise" = false ->
+     get_dask_array_getter (ErrStr s) = GValueError) /\
+  vfw_errors_arg AFlags = ErrNum /\ vfw_errors_arg AOther = ErrStr "placeholder".
+Proof.
+  repeat split; try reflexivity.
+  intros s H1 H2 H3. unfold get_dask_array_getter. cbv [c08_getter_selection select_getter].
+  cbn [sel_test String.eqb Ascii.eqb Bool.eqb fst snd]. cbn. rewrite H1, H2, H3. reflexivity.
+Qed.
 
 Lemma vfw_load_spec : forall s arrays flags,
   vfw_load s arrays = Ret flags ->
